@@ -97,6 +97,20 @@ def related_module_sources():
     return out
 
 
+def cookie_sources():
+    """directed, every run: sources (str) whose first or second line is a comment that LOOKS like a coding declaration — for
+    utf-8, for other codecs, for a codec that does not exist, by accident ("# Hard-coding: none") — with non-ASCII text before,
+    on and after the lines of the imports. rewrite_imports works on text that is already decoded: the comment is a comment."""
+    heads = ["# -*- coding: utf-8 -*-\n", "# -*- coding: latin-1 -*-\n", "# coding=cp1252\n", "#!/usr/bin/env python\n# -*- coding: koi8-r -*-\n",
+             "# vim: set fileencoding=no-such-codec :\n", "# Hard-coding: none of this is configurable\n", "\n# coding: ascii\n",
+             "# -*- coding: utf-16 -*-\n"]
+    bodies = ["from district42 import schema\n", "GREETING = 'h\u00e9llo'; from district42 import schema\nx = 1\n",
+              "name = '\u041d\u0438\u043d\u0430'\nfrom district42 import schema, unmapped_name\ny = '\u2603'\n",
+              "s = '\u00fc'; from valera import validate as v  # \u00e9\nfrom district42.types import optional\n",
+              "from district42 import (schema,  # \u00df\n    unmapped_name)\nz = '\U0001f600'\n"]
+    return [h + b for h in heads for b in bodies]
+
+
 def gen_module(rnd):
     n = rnd.randint(1, 7)
     stmts = []
@@ -338,7 +352,7 @@ def run(ctx):
                 ctx.violation("a mapped name changes (the import would bind a different local name)", old=n, new=new_name)
     reqs, exp, info = [], [], []
     n_mod = ctx.n(1500, 15000)
-    directed = related_module_sources()
+    directed = related_module_sources() + cookie_sources()
     ctx.count("related_module_sources", len(directed))
     n_mod += len(directed)
     k = 0
